@@ -2,4 +2,4 @@ CONSTANTS
   MaxLen = 5
 INIT Init
 NEXT Next
-INVARIANT DesignOkOnSingleToken
+INVARIANT DesignOk
